@@ -10,73 +10,65 @@ NOTE = ("Trusted base: rustc nightly MIR dump of /repo's working tree, the mirsy
         "natively compiled crate first; a sample of passing paths is re-run natively and must agree. Nothing is claimed outside the stated bounds.")
 
 CLAIMED = {
-    "C06": ("utils::merge_arrays, the kernel of concurrent array merging: for ALL pairs of duplicate-free sequences up to length 4 (quick) / 6 (thorough) "
-            "over an unbounded element domain, every feasible path of the real MIR satisfies no-loss / no-duplication / nothing-invented / order clauses. "
-            "One symbolic path stands for every concrete input with that equality pattern.", "DESIGN.md §5 C06"),
-    "C16": ("utils::make_diff_patch + apply_diff_patch (incl. the yavomrs Myers implementation) executed from MIR: for ALL pairs of arrays with repetitions "
-            "up to length 3 (quick) / 5 (thorough) the patched array equals the submitted one and the patch is empty iff nothing changed.", "DESIGN.md §5 C16"),
-}
-CLAIMED.update({
-    "C05": ("RevisionTree (add / unvalidated_add / validate / is_valid_cached / get_leafs / get_winner) and Revision order executed from MIR: for ALL sets of up to 3 "
-            "(thorough 4) change records of every shape (creations, updates, deletions, resolution markers, dangling parents, duplicates), symbolic digests, every order "
-            "of learning and the explored hash-iteration orders, leaves and winner equal the stated rule evaluated by an independent oracle. Tree level only; the "
-            "Melda-level getters are not yet covered.", "DESIGN.md §5 C05"),
-    "C15": ("Kernel part: RevisionTree staging. For ALL trees of up to 2 committed + 2 staged records (shapes and digests symbolic) unstage() restores exactly the "
-            "committed entries, leaves and winner; commit() clears every staged flag and changes nothing else. Melda-level stage/replay/guards not yet covered.", "DESIGN.md §5 C15"),
-    "C19": ("revision.rs executed from MIR on symbolic system-producible revisions (derivation depth <= 1, thorough 2; parsed revisions with index over the whole u32 "
-            "range): cmp antisymmetric/total/transitive, Equal <=> ==, == <=> same text, equal => same hash stream, order == stated rule, print/parse round trip, "
-            "identical edits give identical revisions, digest independent of insertion order.", "DESIGN.md §5 C19"),
-})
-CLAIMED.update({
-    "C03": ("Kernel part: DataStorage pack writer vs pack re-indexer over the real MemoryAdapter, executed from MIR, for every string content over the alphabet "
-            "{ } [ ] , : \" \\ a up to the stated length, several object skeletons, 0..2 (thorough 3) objects per pack: every staged value is readable with the same "
-            "content from the writing storage, a reopened storage and a refreshed storage. Found the brace-in-string defect (fixed). Melda-level commit->reopen not yet covered here.", "DESIGN.md §5 C03"),
-    "C07": ("Melda-level, executed from MIR: two replicas, update/update, update/delete, delete/delete conflicts on an object with symbolic values; every live leaf chosen; "
-            "conflict cleared, value = value at chosen revision, deletion => absent and winner is a deletion, choosing the winner leaves the document unchanged, commit + "
-            "propagation gives identical state, independent resolutions on both replicas converge. Found the resolve-to-deletion defect (fixed).", "DESIGN.md §5 C07"),
-    "C08": ("Single client thread: every lock acquisition of the MIR is tracked; re-acquiring a held Mutex/RwLock (self-deadlock) or any panic on a well-formed scenario is a "
-            "violation. Scenario: concurrent array edits, exchange, further edit, commit, stage, snapshot, unstage, refresh, reload, getters. Found the commit self-deadlock (fixed). "
-            "Worker-pool sizes / real interleavings are not applicable to this technique.", "DESIGN.md §5 C08"),
-    "C10": ("Melda::new over a 2-commit storage with one injected junk item (symbolic ASCII name with block/pack extension incl. over-long digit runs) or one damaged item "
-            "(removed, emptied, truncated, any single byte at first/middle/last position replaced by any other byte - decided through the injective digest model): never a "
-            "panic; either Err or exactly the state of the intact causally complete subset. Found the DeltaId::from overflow panic (fixed).", "DESIGN.md §5 C10"),
-})
-CLAIMED.update({
-    "C04": ("Melda-level, executed from MIR: after 0..2 earlier documents (committed or not) a document of one of three families (element orders and objects moving "
-            "between two flattened arrays; flattened object / string fields with symbolic printable content appearing, disappearing, changing kind; a flattened key "
-            "changing kind among absent / array / empty array / number / string / object) is submitted: read() equals it with only identifiers added; resubmission stages "
-            "nothing; commit result matches has_staging; an idle commit writes nothing; reopened replica equal. Found the deleted-array-descriptor defect (fixed).", "DESIGN.md §5 C04"),
-})
-CLAIMED.update({
-    "C13": ("Melda-level, executed from MIR, on a 6-block two-replica history with a concurrent pair and a merge commit: every commit creates exactly one new stored block whose "
-            "parents are the previous heads, whose index is max(parent)+1 and which becomes the only head; heads are ancestor-free and ancestor-closed after commit, meld+refresh, "
-            "reopen, time travel to any block and reload; metadata (symbolic char, nested, empty, None), parents and packs read back identically on both replicas and after reopen.", "DESIGN.md §5 C13"),
-    "C14": ("Same history: for EVERY head set replica a ever had (single heads and the two-head set after the merge) reload_until and new_until show exactly the recorded state, "
-            "a plain reload returns to the latest state, and every revision of the travelled history keeps its value and parent.", "DESIGN.md §5 C14"),
-})
-CLAIMED.update({
-    "C02": ("Melda-level, executed from MIR: the items of a linear 2-commit history (all 24 orders of its 4 files) and of a concurrent+merge history (all 720 orders of 6 files on top of the "
-            "base) are delivered one file at a time to a fresh replica that refreshes after each: the visible state always equals the recorded state of exactly the causally complete "
-            "blocks (block + all ancestors + packs present), equals a full reload of the same storage, and finally equals the source.", "DESIGN.md §5 C02"),
-    "C09": ("Melda-level with a harness-side fault-injecting backend around the real MemoryAdapter: 1-2 failing writes inside a commit (incl. the same write failing on the retry) leave the "
-            "stage and the view intact, the retry is as durable as an uninterrupted commit, a block never precedes its pack, and reopening at EVERY write boundary of the commit / of a meld with "
-            "failing copy writes shows only complete previous/new states; repeating the meld converges.", "DESIGN.md §5 C09"),
-    "C12": ("Melda-level: in states with pending array and object conflicts (concurrent inserts at the same position, moves between arrays, removals; optional symbolic element ids) read() is "
-            "unchanged by meld without refresh, idle refresh/reload, stage_full_snapshot (+commit, reopen), commit with automatic array resolution (+reopen) and idle commit.", "DESIGN.md §5 C12"),
-})
-CLAIMED.update({
-    "C01": ("Tree level: order-of-learning insensitivity of RevisionTree for all record sets up to 3 (thorough 4). Melda level, executed from MIR: every symbolic sequence of up to 3 (thorough 4) operations "
-            "over {update, commit, meld+refresh in both directions, unstage} on two replicas, followed by exchange to a fixpoint: both replicas, a replica fed by plain file copy with refreshes at symbolic points "
-            "and a replica opened by one reload expose the same state; plus all delivery orders of a 2-commit history.", "DESIGN.md §5 C01"),
-    "C11": ("Melda level, executed from MIR with the real-length (64 hex) digest model: after every step of a two-replica history with rich commit metadata every stored key equals the digest of its bytes "
-            "(blocks: index = 1 + max parent index), the key set only grows, existing bytes never change, melded items are byte-identical, replicas with the same history hold identical items, and "
-            "non-writing operations write nothing; pack name = digest of its bytes at the kernel level.", "DESIGN.md §5 C11"),
-    "C17": ("Partial: MemoryAdapter and the Arc<RwLock<Box<dyn Adapter>>> wrapper executed from MIR against a reference model for all sequences of 1..2 (thorough 3) writes with symbolic keys (incl. keys whose "
-            "stem ends with the suffix) and symbolic contents: first write wins, whole and ranged reads (symbolic offset/length), missing keys, listing by suffix with the suffix removed once. "
-            "Directory / SQLite / Solid backends and the compression codecs are N/A for this technique.", "DESIGN.md §5 C17"),
+    "C01": ("Tree level: RevisionTree built by add / unvalidated_add+validate in every order of learning equals the rule for all record sets up to 3 (thorough 4) records. Melda level, executed from MIR: "
+            "every symbolic sequence of up to 3 (thorough 4) operations over {update, commit (+reopen comparison), meld+refresh in both directions, unstage, delete_object, stage_full_snapshot, resolve_as, reload} "
+            "on two replicas followed by exchange to a fixpoint: both replicas, a replica fed by plain file copy with refreshes at symbolic points and a replica opened by one reload expose the same state; "
+            "all delivery orders of a 2-commit history; identical revisions in two blocks; mixed file-copy + meld routes; a pack first seen half copied.", "DESIGN.md §5 C01"),
+    "C02": ("Melda level, executed from MIR: the files of a linear 2-commit history (all 24 orders, one full reload at a symbolic point) and of a concurrent+merge history (all 720 orders of 6 files) are "
+            "delivered one at a time to a replica that refreshes after each: the visible state always equals the recorded state of exactly the causally complete blocks and a full reload of the same storage; "
+            "objects de-duplicated against packs of held-back blocks; a block still waits for its own pack when its objects are readable elsewhere.", "DESIGN.md §5 C02"),
+    "C03": ("DataStorage pack writer vs pack re-indexer over the real MemoryAdapter for every string over { } [ ] , : \" \\ a tab newline up to the stated length, several object skeletons, 0..2 (thorough 3) "
+            "objects per pack: every staged value is readable with the same content from the writing, a reopened and a refreshed storage. Melda level: commit then reopen shows the same state after 1..3 staged "
+            "updates, with automatic array resolution, with id-only (empty) elements. Floats are outside the claim. Found the brace-in-string defect (fixed).", "DESIGN.md §5 C03"),
+    "C04": ("Melda level, executed from MIR: after 0..2 earlier documents (committed or not) a document of one of five families (element orders and objects moving between two flattened arrays; flattened "
+            "object / string fields with symbolic content appearing, disappearing, changing kind; a flattened key changing kind; sibling anonymous sub-objects and id-only elements; identifiers and strings "
+            "starting with the escape characters) is submitted: read() equals it with only identifiers added; resubmission stages nothing; commit result matches has_staging; an idle commit writes nothing; "
+            "reopened replica equal; also while conflicts are pending. Found two defects (fixed).", "DESIGN.md §5 C04"),
+    "C05": ("RevisionTree (add / unvalidated_add / validate / is_valid_cached / get_leafs / get_winner) and Revision order executed from MIR: for ALL sets of up to 3 (thorough 4) change records of every shape "
+            "(creations, updates, deletions, resolution markers, dangling parents of index 1 and 2, duplicates), symbolic digests, every order of learning and the explored hash-iteration orders, leaves and "
+            "winner equal the stated rule evaluated by an independent oracle.", "DESIGN.md §5 C05"),
+    "C06": ("utils::merge_arrays for ALL pairs of duplicate-free sequences up to length 4 (thorough 6) over an unbounded element domain: no loss / duplication / invention, order clauses. Melda level: two "
+            "replicas x 10 array versions (same-position inserts, moves between arrays, removals, symbolic ids), chains of two versions per replica (equal edit scripts over different parents), nested arrays: "
+            "each surviving element exactly once on both replicas, also after commit + propagation.", "DESIGN.md §5 C06"),
+    "C07": ("Melda level, executed from MIR: update/update, update/delete, delete/delete and three-way conflicts on an object with symbolic values, and array conflicts; every live leaf chosen: conflict cleared, "
+            "state = state at the chosen revision, deletion => absent, choosing the winner changes nothing, commit + propagation gives identical state, independent resolutions converge. Found the "
+            "resolve-to-deletion defect (fixed).", "DESIGN.md §5 C07"),
+    "C08": ("Partial. Single client thread: every lock acquisition of the MIR is tracked; re-acquiring a held Mutex/RwLock (self-deadlock) or any panic on well-formed input is a violation. Every public operation "
+            "in seven kinds of state (empty, staged, committed with deletions, object + array conflicts pending, staged resolutions, after time travel, array dropped on one side). Found three defects (fixed). "
+            "Worker-pool sizes / real interleavings are not applicable to this technique.", "DESIGN.md §5 C08, §6"),
+    "C09": ("Melda level with a harness-side fault-injecting backend around the real MemoryAdapter: 1-2 failing writes inside a commit (incl. the same write failing on the retry; retry or unstage + identical "
+            "edit) leave the stage and the view intact, the result is as durable as an uninterrupted commit and transferable by meld, a block never precedes its pack, and reopening at EVERY write boundary of "
+            "the commit / of a meld with failing copies shows only complete previous/new states.", "DESIGN.md §5 C09"),
+    "C10": ("Melda::new / refresh over a 2-commit (and a merge) storage with one injected junk item (symbolic ASCII name with block/pack extension incl. over-long digit runs) or one damaged item (removed, "
+            "emptied, truncated, renamed, any single byte replaced by any other byte - decided through the injective digest model), damage in place under a live replica before and after its objects were "
+            "read, and a half-copied pack completed later: never a panic; either Err or exactly the state of the intact causally complete subset. Found the DeltaId::from overflow panic (fixed).", "DESIGN.md §5 C10"),
+    "C11": ("Melda level, executed from MIR with the real-length (64 hex) digest model: after every step of a two-replica history with rich commit metadata (incl. a pack-less commit, relays, a commit after "
+            "time travel) every stored key equals the digest of its bytes (blocks: index = 1 + max parent index), the key set only grows, existing bytes never change, melded items are byte-identical, "
+            "replicas with the same history hold identical items, non-writing operations write nothing.", "DESIGN.md §5 C11"),
+    "C12": ("Melda level: in states with pending array and object conflicts (concurrent inserts at the same position, moves between arrays, removals; optional symbolic element ids; default and capacity-1 "
+            "caches) read() is unchanged by meld without refresh, idle refresh/reload, stage_full_snapshot (+commit, reopen), commit with automatic array resolution (+reopen, +reload) and idle commit.", "DESIGN.md §5 C12"),
+    "C13": ("Melda level on a 6-block two-replica history with a concurrent pair of unequal length and a merge commit: every commit creates exactly one new stored block whose parents are the previous heads, "
+            "index max(parent)+1, the only head afterwards; heads ancestor-free and ancestor-closed after commit, meld+refresh, reopen, time travel to any block, meld after time travel, redo of a stored "
+            "block and reload; metadata, parents and packs read back identically on both replicas and after reopen.", "DESIGN.md §5 C13"),
+    "C14": ("Same history (and a two-diamond history): for EVERY head set replica a ever had (single heads and two-head sets, with a first hop to another point) reload_until and new_until show exactly the "
+            "recorded state, a plain reload returns to the latest state, and every revision of the travelled history keeps its value and parent.", "DESIGN.md §5 C14"),
+    "C15": ("Tree level: for ALL trees of up to 2 committed + 2 staged records unstage() restores exactly the committed entries, leaves and winner; commit() clears the staged flags only. Melda level: stage -> "
+            "unstage -> replay restores the staged state (also with chained staged revisions exported in either order, staged resolutions, create+remove), unstage restores the committed state, reload / "
+            "refresh refuse while staged, commit leaves nothing staged.", "DESIGN.md §5 C15"),
+    "C16": ("utils::make_diff_patch + apply_diff_patch (incl. the yavomrs Myers implementation) executed from MIR: for ALL pairs of arrays with repetitions up to length 3 (thorough 5) the patched array equals "
+            "the submitted one and the patch is empty iff nothing changed. Melda level: chains of 3-4 array versions (key may disappear mid-chain, identical consecutive edit scripts) with symbolic cache "
+            "capacities 1..3, observers receiving several versions at once. Found two defects (fixed).", "DESIGN.md §5 C16"),
+    "C17": ("Partial. MemoryAdapter (directly and through the Arc<RwLock<Box<dyn Adapter>>> wrapper), FilesystemAdapter (over an ideal in-memory file-system model, incl. a second instance on the same "
+            "directory) and Flate2Adapter over both (Deflate abstracted to an invertible framing), executed from MIR against one reference model of the write-once contract for all sequences of 1..2 "
+            "(thorough 3) writes with symbolic keys and contents: first write wins, whole and ranged reads, missing keys, listing by suffix. Found the Flate2 listing defect (fixed). SQLite / Solid / Brotli "
+            "and the real codec / OS behaviour are N/A for this technique.", "DESIGN.md §5 C17, §6"),
     "C18": ("Partial: the same history run with canonical orders vs with <= nd_budget reversed iteration events (hash tables, sequentialised worker pool), reversed storage listing and symbolic cache "
-            "capacities 1..3 yields the same objects, winners, conflicts and documents (also after reopen and on the second replica). Worker-pool sizes / real parallel schedules N/A.", "DESIGN.md §5 C18"),
-})
+            "capacities 1..3 yields the same objects, winners, conflicts and documents (also after reopen and on the second replica); three-way array conflicts learnt in any order. Worker-pool sizes / real "
+            "parallel schedules N/A.", "DESIGN.md §5 C18, §6"),
+    "C19": ("revision.rs executed from MIR on symbolic system-producible revisions (derivation depth <= 1, thorough 2; parsed revisions with index over the whole u32 range): cmp antisymmetric / total / "
+            "transitive, Equal <=> ==, == <=> same text, equal => same hash stream, order == stated rule, print/parse round trip, identical edits give identical revisions, tail derived from the parent "
+            "identifier only, digest independent of insertion order.", "DESIGN.md §5 C19"),
+}
 NA_REASON_PENDING = "check not built yet in this revision of /verif (Melda-level MIR reach in progress); not claimed"
 
 checks = []
